@@ -13,6 +13,7 @@
 import SuplaVerif.Model.Mqtt
 import SuplaVerif.Lemmas.MqttParse
 import SuplaVerif.Lemmas.MqttLive
+import SuplaVerif.Lemmas.MqttAck
 
 namespace SuplaVerif.C16
 open Bytes
@@ -252,5 +253,83 @@ example :
 
 /-- non-vacuity of C16.6: the historic witness (topic length 255 in a 5-byte PUBLISH) blocks the stream -/
 example : parse [0x30, 0x05, 0, 0xff, 0x61, 0x2f, 0x62] = .bad := by decide
+
+/-- the fifth length byte is never read: four continuation bytes are already an invalid length -/
+theorem remLen_five (b : Bytes) (hl : 5 ≤ b.length)
+    (h1 : (b.getD 1 0).toNat ≥ 128) (h2 : (b.getD 2 0).toNat ≥ 128) (h3 : (b.getD 3 0).toNat ≥ 128)
+    (h4 : (b.getD 4 0).toNat ≥ 128) : remLen b 5 1 0 0 = some none := by
+  have e1 : ¬ (1 ≥ b.length) := by omega
+  have e2 : ¬ (2 ≥ b.length) := by omega
+  have e3 : ¬ (3 ≥ b.length) := by omega
+  have e4 : ¬ (4 ≥ b.length) := by omega
+  simp only [List.getD_eq_getElem?_getD] at h1 h2 h3 h4
+  simp [remLen, e1, e2, e3, e4]
+  rw [if_pos h1, if_pos h2, if_pos h3, if_pos h4]
+
+/-- **C16.8 (impossible length)** a fixed header whose remaining-length field continues beyond four bytes is a protocol
+    error for every byte string, whatever follows: it is never waited for and never handed over (with C16.6 nothing
+    behind it is handed over either). -/
+theorem c16_five_byte_length_is_error (b : Bytes) (hl : 5 ≤ b.length)
+    (h1 : (b.getD 1 0).toNat ≥ 128) (h2 : (b.getD 2 0).toNat ≥ 128) (h3 : (b.getD 3 0).toNat ≥ 128)
+    (h4 : (b.getD 4 0).toNat ≥ 128) :
+    parse b = .bad ∧ unpackResponse b = .err .invalidRemLen := by
+  have h := remLen_five b hl h1 h2 h3 h4
+  constructor
+  · unfold parse; rw [if_neg (by omega), h]
+  · unfold unpackResponse; rw [if_neg (by omega)]; simp only; rw [if_neg (by omega), h]
+
+/-- **C16.9 (length field range)** an accepted remaining length is below 2^28 and was read from one to four bytes -/
+theorem c16_remaining_length_bounded (b : Bytes) (rem hdr : Nat)
+    (h : remLen b 5 1 0 0 = some (some (rem, hdr))) : rem < 268435456 ∧ 2 ≤ hdr ∧ hdr ≤ 5 := by
+  simp [remLen] at h
+  obtain ⟨_, h⟩ := h
+  repeat' split at h
+  all_goals (cases h; try omega)
+
+/-- non-vacuity of C16.8: the packet of the seeded change (PUBLISH with a five-byte length, topic "t", payload "abcd") -/
+example : parse [0x30, 0x87, 0x80, 0x80, 0x80, 0x00, 0x00, 0x01, 0x74, 0x61, 0x62, 0x63, 0x64] = .bad := by decide
+/-- non-vacuity of C16.9: the largest four-byte length -/
+example : remLen [0x30, 0xff, 0xff, 0xff, 0x7f] 5 1 0 0 = some (some (268435455, 5)) := by decide
+
+/-! # acknowledgements and the inbound QoS 1/2 flows (Model/MqttAck, proofs in Lemmas/MqttAck) -/
+
+/-- **C16.10 (acknowledgement of something never sent)** for every queue and every acknowledgement: if it is accepted, the
+    queue holds the message it answers - same control type, same packet id (for a PUBREC also: the PUBREL already packed in
+    answer to an earlier copy of it). A search that ignores the type or the id would not have this property. -/
+theorem c16_ack_needs_request (q : MqttAck.MQ) (p : MqttAck.Pkt) (ty pid : Nat) (ha : p.answers = some (ty, pid))
+    (hok : (MqttAck.handle q p).2.err = false) :
+    MqttAck.found q ty pid = true ∨ (p = .pubrec pid ∧ MqttAck.found q 6 pid = true) :=
+  MqttAck.ack_needs_request q p ty pid ha hok
+
+/-- **C16.11 (one event refines the flow specification)** `Inv`: at most one PUBREC per packet id waits for its PUBREL; `Abs`: the
+    open flows of the specification are the ids with a waiting PUBREC. Both are kept by every event - a packet from the broker,
+    a request of the client's own, sending, cleaning - and a PUBLISH is handed over exactly when the specification says so. -/
+theorem c16_flow_step_refines (q : MqttAck.MQ) (o : List Nat) (e : MqttAck.Ev) (hI : MqttAck.Inv q) (hA : MqttAck.Abs q o)
+    (hw : e.wf) :
+    MqttAck.Inv (MqttAck.step q e).1 ∧ MqttAck.Abs (MqttAck.step q e).1 (MqttAck.specStep o e).1 ∧
+    (∀ qos pid, e = .pkt (.publish qos pid) → (MqttAck.step q e).2.delivered = (MqttAck.specStep o e).2) :=
+  MqttAck.step_refines q o e hI hA hw
+
+/-- **C16.12 (QoS 2 exactly once, for every history)** whatever the broker sends and however sending and cleaning of the queue
+    interleave: the callbacks are exactly those of the flow specification - every QoS 0/1 PUBLISH, and of the QoS 2 PUBLISH
+    packets with one packet id the first one and every first one after a PUBREL. In particular a packet id that is used again
+    after its flow was released is a new message and is handed over. -/
+theorem c16_qos2_exactly_once (es : List MqttAck.Ev) (q : MqttAck.MQ) (o : List Nat) (hI : MqttAck.Inv q)
+    (hA : MqttAck.Abs q o) (hw : ∀ e ∈ es, e.wf) : MqttAck.deliveries q es = MqttAck.specDeliveries o es :=
+  MqttAck.qos2_exactly_once es q o hI hA hw
+
+/-- the empty queue (a new connection) satisfies the hypotheses of C16.11/12 with no open flow -/
+theorem c16_flow_init : MqttAck.Inv [] ∧ MqttAck.Abs [] [] := MqttAck.inv_nil
+
+/-- **C16.13 (QoS 1)** a QoS 1 PUBLISH is always handed over and its PUBACK carries the same packet id -/
+theorem c16_qos1_delivered_and_acked (q : MqttAck.MQ) (pid : Nat) :
+    (MqttAck.handle q (.publish 1 pid)).2 = { delivered := true, staged := some (4, pid) } := by
+  simp [MqttAck.handle]
+
+/-- non-vacuity, the history of the defect this model was written after: PUBLISH(7) - PUBREL(7) - PUBLISH(7) again, with the
+    acknowledgements sent in between and other traffic; both messages are handed over, the retransmission is not -/
+example : MqttAck.deliveries [⟨8, 46161, false⟩]
+    [.pkt (.publish 2 7), .flush, .pkt (.publish 2 7), .pkt (.pubrel 7), .flush, .own 3 60968, .pkt (.publish 2 7), .pkt (.pubrel 7),
+     .pkt (.suback 46161), .pkt (.publish 1 7)] = [(2, 7), (2, 7), (1, 7)] := by decide
 
 end SuplaVerif.C16
